@@ -89,6 +89,12 @@ pub fn run(tier: Tier) -> Report {
             cases.push((18, base + r, 31 - (r % 31) as u8, ((r + 1) % 3) as u8));
         }
     }
+    // boundary lattice of dimensions, all pairs under the pixel cap
+    let lattice = size_lattice(if tier.thorough() { 1 << 22 } else { 1 << 20 });
+    rep.extra("size_lattice_pairs", json!(lattice.len()));
+    for (i, &(w, h)) in lattice.iter().enumerate() {
+        cases.push((w, h, 1 + (i * 11 % 31) as u8, (i % 3) as u8));
+    }
     cases.push((2049, 17, 5, 1));
     cases.push((17, 2049, 5, 2));
     // more than 2^24 samples (sizes whose product is not representable in single precision)
@@ -101,7 +107,7 @@ pub fn run(tier: Tier) -> Report {
         cases.push((33, 65535, 2, 0));
     }
     cases.par_iter().for_each(|&(w, h, q, kind)| {
-        let version = ((w + h) % 2) as u8;
+        let version = ((w as u32 + h as u32) % 2) as u8;
         let mut d = Dec::new(1);
         let ipic = coded_intra(shdr(w, h, 0, 0, q, version));
         let bytes = encode_bytes(&ipic);
@@ -194,7 +200,7 @@ pub fn run(tier: Tier) -> Report {
     rep.add_transitions(std_cases.len() as u64);
     rep.add_states(std_cases.len() as u64);
     rep.set_rule(&format!(
-        "every size 1..={maxd} x 1..={maxd}: I pictures at every quantizer 1..31 (fully crossed for sizes <= 20x20, pairwise beyond), plus a P and a D picture per size, plus long/thin extras and standard-mode custom sizes: plane-size relations, then deblock(plane, row, QUANT_TO_STRENGTH[q]) on the three planes and yuv420_to_rgba on the result under catch_unwind; non-trivial = sizes with an odd dimension or fewer than 10 rows/columns"
+        "every size 1..={maxd} x 1..={maxd}: I pictures at every quantizer 1..31 (fully crossed for sizes <= 20x20, pairwise beyond), plus a P and a D picture per size, plus long/thin extras, every residue mod 16 above 256/512/1024, all pairs of the boundary lattice of dimensions (powers of two and their neighbours, 3*2^k, the named formats, 65535) under the pixel cap, one picture of more than 2^24 samples, and standard-mode custom sizes: plane-size relations, then deblock(plane, row, QUANT_TO_STRENGTH[q]) on the three planes and yuv420_to_rgba on the result under catch_unwind; non-trivial = sizes with an odd dimension or fewer than 10 rows/columns"
     ));
     rep.sample(json!({"size": [1, 1], "q": 31, "kind": "I"}));
     rep.sample(json!({"size": [17, 2], "q": 12, "kind": "D", "note": "chroma planes are one row high"}));
